@@ -59,6 +59,16 @@ HARNESSES.update({
     "c12_chunk_twice": H("c12", ["C12"], sym="c1, c2: every usize", bounds="SincFixedIn and SincFixedOut (+Probe(2,1)), construction chunk 5; two successive set_chunk_size calls"),
     "c12_rel_as_abs_getters": H("c12", ["C12"], sym="x: every f64; ramp",
         bounds="FastFixedOut<f64> and SincFixedIn<f64>+Probe(2,1), orig 0.75 max 2; twins get set_resample_ratio(orig*x); all getters compared; no processing call"),
+    "c12_rel_as_abs_getters_moved": H("c12", ["C12"], sym="x: every f64; ramp",
+        bounds="FastFixedIn<f64> and SincFixedOut<f64>+Probe(2,1), orig 0.75 max 2, current ratio first moved to 1.25 (absolute, stepped); twins get set_resample_ratio(orig*x); all getters compared; no processing call"),
+    "c12_rel_as_abs_ffi_moved": H("c12", ["C12"], tier="thorough", sym="x: every f64; ramp",
+        bounds="as c12_rel_as_abs_ffi with the current ratio first moved to 3.0; 1 call each"),
+    "c12_rel_as_abs_ffo_moved": H("c12", ["C12"], tier="thorough", sym="x: every f64; ramp",
+        bounds="as c12_rel_as_abs_ffo with the current ratio first moved to 1.25; 1 call each"),
+    "c12_rel_as_abs_sfo_moved": H("c12", ["C12"], tier="thorough", sym="x: every f64; ramp",
+        bounds="as c12_rel_as_abs_sfo with the current ratio first moved to 1.25; 1 call each"),
+    "c12_rel_as_abs_sfi_moved": H("c12", ["C12"], tier="thorough", sym="x: every f64; ramp",
+        bounds="SincFixedIn<f64>+Probe(2,1) orig 1.5 max 3 Nearest chunk 2, current ratio first moved to 3.0; twin gets set_resample_ratio(orig*x); 1 call each"),
     "c12_rel_as_abs_ffi": H("c12", ["C12"], tier="thorough", sym="x: every f64; ramp",
         bounds="FastFixedIn<f64> orig 1.5 max 3 Nearest chunk 2; twin gets set_resample_ratio(orig*x); 1 call each, unwind 30"),
     "c12_rel_as_abs_ffo": H("c12", ["C12"], tier="thorough", sym="x: every f64; ramp",
@@ -149,11 +159,13 @@ _c10("c10_ffo_lowered", "FastFixedOut<f64> Linear chunk 2, 1 ch, max_rel 2; hist
 _c10("c10_ffo_ramp_pending", "FastFixedOut<f32> Cubic chunk 2, 1 ch; history: ratio 1.75 ramped, 2 calls, pending relative ramp 1.25, failed call; reset; 3 calls vs twin", _conc)
 _c10("c10_ffi_lowered", "FastFixedIn<f64> Linear chunk 3, 1 ch; history: ratio 0.5 stepped, 4 calls; reset; 5 calls vs twin", _conc)
 _c10("c10_ffi_ramp_pending", "FastFixedIn<f32> Septic chunk 3, 1 ch; history: ratio 2.0 ramped, 3 calls, pending ramp, failed call; reset; 5 calls vs twin", _conc)
-_c10("c10_sfo_lowered_chunk", "SincFixedOut<f64>+Probe(4,2) Linear max chunk 3, 1 ch; history: set_chunk_size(1), ratio 0.5 stepped, 2 calls; reset; 3 calls vs twin", _conc)
-_c10("c10_sfo_ramp_pending", "SincFixedOut<f32>+Probe(4,2) Cubic chunk 3, 1 ch; history: ratio 1.5 ramped, 1 call, pending ramp, failed call; reset; 3 calls", _conc)
-_c10("c10_sfi_lowered_chunk", "SincFixedIn<f64>+Probe(4,2) Linear max chunk 3, 1 ch; history: set_chunk_size(2), ratio 0.5, 4 calls; reset; 5 calls vs twin", _conc)
-_c10("c10_sfi_ramp_pending", "SincFixedIn<f32>+Probe(4,3) Quadratic chunk 3, 1 ch; history: ratio 2.0 ramped, 3 calls, pending ramp, failed call; reset; 5 calls", _conc)
+_c10("c10_sfo_lowered_chunk", "SincFixedOut<f64>+SumProbe(4,2) Linear max chunk 3, 1 ch; history: set_chunk_size(1), ratio 0.5 stepped, 2 calls; reset; 3 calls vs twin", _conc)
+_c10("c10_sfo_ramp_pending", "SincFixedOut<f32>+SumProbe(4,2) Cubic chunk 3, 1 ch; history: ratio 1.5 ramped, 1 call, pending ramp, failed call; reset; 3 calls", _conc)
+_c10("c10_sfi_lowered_chunk", "SincFixedIn<f64>+SumProbe(4,2) Linear max chunk 3, 1 ch; history: set_chunk_size(2), ratio 0.5, 4 calls; reset; 5 calls vs twin", _conc)
+_c10("c10_sfi_ramp_pending", "SincFixedIn<f32>+SumProbe(4,3) Quadratic chunk 3, 1 ch; history: ratio 2.0 ramped, 3 calls, pending ramp, failed call; reset; 5 calls", _conc)
 _fft_sym = "mask entry of the pre-reset calls; number of pre-reset calls concrete per harness"
+_c10("c10_sfi_full_then_lowered", "SincFixedIn<f64>+SumProbe(4,2) Linear max chunk 8, 1 ch; history: full-size call with signal, set_chunk_size(3), call; reset; 1 call vs fresh twin (window-sum kernel: every history sample is visible)", _conc, cap=900)
+_c10("c10_fto_masked_then_reset", "FftFixedOut<f64> 2->3 chunk 3, 2 ch; history: unmasked call with signal, call with mask [true,false]; reset; unmasked call on both channels vs fresh twin", "none (concrete)", stubs=FFT_STUBS, cap=900)
 _c10("c10_fto_1", "FftFixedOut<f64> 2->3 chunk 4, sub_chunks 2 (block 2/3: one call changes the next input need), 1 ch; 1 call, reset, 1 call vs fresh twin", _fft_sym, stubs=FFT_STUBS)
 _c10("c10_fto_2", "FftFixedOut<f64> 2->3 chunk 4, 1 ch; 2 calls, reset, 3 calls vs fresh twin", _fft_sym, stubs=FFT_STUBS)
 _c10("c10_fto_mult_2", "FftFixedOut<f64> 2->3 chunk 6 = 2 blocks, sub_chunks 2, 1 ch; 2 calls, reset, 3 calls vs fresh twin", _fft_sym, stubs=FFT_STUBS)
@@ -162,7 +174,7 @@ _c10("c10_fti_2", "FftFixedIn<f64> 2->3 chunk 3, 1 ch; 2 calls, reset, 3 calls",
 _c10("c10_ftio_1", "FftFixedInOut<f64> 2->3 chunk 2, 1 ch; 1 call, reset, 2 calls", _fft_sym, stubs=FFT_STUBS)
 _c10("c10_ffo_sym", "FastFixedOut<f64> Linear chunk 2, 2 ch; symbolic history; reset; 2 calls vs twin", _c10_sym_thorough, tier="thorough", cap=3600)
 _c10("c10_ffi_sym", "FastFixedIn<f64> Linear chunk 3, 2 ch; symbolic history; reset; 3 calls vs twin", _c10_sym_thorough, tier="thorough", cap=3600)
-_c10("c10_sfo_sym", "SincFixedOut<f64>+Probe(4,2) chunk 3, 2 ch; set_chunk_size(1), symbolic history; reset; 2 calls vs twin", _c10_sym_thorough, tier="thorough", cap=3600)
+_c10("c10_sfo_sym", "SincFixedOut<f64>+SumProbe(4,2) chunk 3, 2 ch; set_chunk_size(1), symbolic history; reset; 2 calls vs twin", _c10_sym_thorough, tier="thorough", cap=3600)
 _c10("c10_witness", "no reset before the comparison: must FAIL (vacuity witness)", "none", witness=True)
 
 # ---------------------------------------------------------------- C16: wrappers == core call
@@ -173,10 +185,12 @@ _c16("c16_process_ffo", "FastFixedOut<f64> Nearest chunk 2, 2 ch, fresh; process
 _c16("c16_process_sfi", "SincFixedIn<f64>+Probe(2,1) Nearest chunk 6, 2 ch (estimate larger than written count: truncation)", _pv, tier="thorough")
 _c16("c16_process_ftio", "FftFixedInOut<f64> 2->3 chunk 2, 2 ch", _pv, stubs=FFT_STUBS, tier="thorough")
 _pp = "partial lengths l0 in [1,next), l1 in [0,next) independent; mask None/Some([true,m1]); masked channel may be empty"
-_c16("c16_partial_ffo", "FastFixedOut<f64> Nearest chunk 2, 1 ch; process_partial_into_buffer(Some(x[..l])) vs zero-padded process_into_buffer on a twin", "partial length l in [1, next)")
+_c16("c16_process_ffi_ramp_pending", "FastFixedIn<f64> Nearest chunk 3, 1 ch, ramped change pending (to 0.5 or to 2.0): process() vs process_into_buffer with an output_frames_next()-sized buffer on a twin: both Ok, same count and values", "direction of the pending ramp")
+_c16("c16_partial_ffo", "FastFixedOut<f64> Nearest chunk 6 (the last frames of the first call read the current input), 1 ch; process_partial_into_buffer(Some(x[..l])) vs zero-padded process_into_buffer on a twin", "partial length l in [1, next)")
 _c16("c16_partial_sfi", "SincFixedIn<f64>+Probe(2,1) chunk 6, 1 ch; as above", "partial length l in [1, next)")
-_c16("c16_partial_ffo_2ch", "FastFixedOut<f64> chunk 2, 2 ch: concrete partial lengths 5 and 2 (per-channel padding), mask [true,true]; vs zero-padded twin", "none (concrete lengths)")
-_c16("c16_partial_ffo_2ch_masked_empty", "FastFixedOut<f64> chunk 2, 2 ch: channel 0 partial (5 frames), channel 1 masked and passed EMPTY; vs zero-padded twin", "none (concrete)")
+_c16("c16_partial_ffo_2ch", "FastFixedOut<f64> chunk 6, 2 ch: concrete partial lengths 5 and 2 (per-channel padding), mask [true,true]; vs zero-padded twin", "none (concrete lengths)")
+_c16("c16_partial_ffo_2ch_masked_empty", "FastFixedOut<f64> chunk 6, 2 ch: channel 0 partial (5 frames), channel 1 masked and passed EMPTY; vs zero-padded twin", "none (concrete)")
+_c16("c16_partial_ffo_2ch_masked_first", "FastFixedOut<f64> chunk 6, 2 ch: channel 0 masked and passed EMPTY, channel 1 partial (5 frames); vs zero-padded twin", "none (concrete)")
 _c16("c16_partial_ffo_2ch_sym", "FastFixedOut<f64> Linear chunk 2, 2 ch; symbolic independent partial lengths and mask", _pp, tier="thorough")
 _c16("c16_partial_sfi_2ch_sym", "SincFixedIn<f64>+Probe(2,1) chunk 6, 2 ch; symbolic independent partial lengths and mask", _pp, tier="thorough")
 _c16("c16_partial_fto_2ch_sym", "FftFixedOut<f64> 2->3 chunk 3, 2 ch; symbolic partial lengths and mask", _pp, stubs=FFT_STUBS, tier="thorough")
@@ -203,6 +217,7 @@ _c11("c11_fto_ch1", "FftFixedOut<f64> 2->3 chunk 4: 2-channel vs twin for channe
 _c11("c11_fti_ch0", "FftFixedIn<f64> 2->3 chunk 4: 2-channel vs twin for channel 0, 1 call", _m, stubs=FFT_STUBS)
 _c11("c11_witness", "twin fed the other channel's data: must FAIL (vacuity witness)", "none", witness=True)
 _c11("c11_ffi_masked_first", "FastFixedIn<f64> Nearest chunk 10, 2 ch, mask [false,true] (first channel empty) vs 1-channel twin, 1 call", "none (concrete mask; symbolic-mask variant c11_ffi_ch1_line is thorough)")
+_c11("c11_sfi_chunk_change_2ch", "SincFixedIn<f64>+Probe(2,1) Nearest chunk 5, 2 ch with different signals vs 1-channel twin: call, set_chunk_size(3), call", "none (concrete)", cap=900)
 _c11("c11_sfi_masked_first", "SincFixedIn<f64>+Probe(2,1) Nearest chunk 5, 2 ch, mask [false,true] vs 1-channel twin, 1 call", "none (concrete mask; symbolic-mask variant c11_sfi_ch1_sym is thorough)")
 HARNESSES["c11_ffi_ch1_line"]["tier"] = "thorough"
 HARNESSES["c11_sfi_ch1_sym"]["tier"] = "thorough"
@@ -218,6 +233,8 @@ _c17("c17_ffo_call", "FastFixedOut<f32> vs <f64> Nearest chunk 2: ramped change 
 _c17("c17_sfo_call", "SincFixedOut<f32> vs <f64> +Probe(8,1) Nearest chunk 2: ramped change to 1.5, 1 call", "none (concrete ratio)")
 _c17("c17_ffi_call", "FastFixedIn<f32> vs <f64> Nearest chunk 10: ramped change to 0.75, 1 call", "none (concrete ratio)")
 _c17("c17_real_new_8", "SincFixedOut::<f32>::new vs ::<f64>::new (real table generation, scalar kernel), sinc_len 8: every getter equal", "none", stubs=["CpuFeature::is_detected -> false"])
+_c17("c17_ctor_sizes_8", "SincFixedOut::<f32>::new vs ::<f64>::new through make_interpolator with the table CONTENTS stubbed (sizes real), sinc_len 8, oversampling 2: every getter equal", "none", stubs=["CpuFeature::is_detected -> false", "make_sincs -> unit table"], cap=300)
+_c17("c17_ctor_sizes_20", "SincFixedIn::<f32>::new vs ::<f64>::new, table contents stubbed, sinc_len 20 (rounded up to 24 by make_interpolator), oversampling 1: every getter equal", "none", stubs=["CpuFeature::is_detected -> false", "make_sincs -> unit table"], cap=300)
 _c17("c17_real_new_20", "as above with sinc_len 20 (rounded up by the constructor), oversampling 1", "none", stubs=["CpuFeature::is_detected -> false"])
 _c17("c17_fto_call", "FftFixedOut<f32> vs <f64> 2->3 chunk 4 sub_chunks 2: getters, 1 call, counts, getters", "none", stubs=FFT_STUBS)
 _c17("c17_ffo_step", "FastFixedOut f32 vs f64 Nearest chunk 2: symbolic setter + 1 call on both", "ratio: every accepted f64 (D_full); ramp", tier="thorough")
@@ -295,6 +312,8 @@ HARNESSES["c10_ffo_ctor_ratio"] = H("c03x", ["C10", "C04"], cap=1200, mem=6, unt
 # ---------------------------------------------------------------- additions after the seeded-change analysis
 _c06("c06_ffi_change_grid", ["C06"], "FastFixedIn<f64> Linear chunk 8, max_rel 1.5; 2 warm-up calls at ratio 1; setter + 1 call (variable number of frames)", "new ratio k/32 (D_grid); ramp bool", tier="thorough")
 _c06("c06_sfi_change_grid", ["C06"], "SincFixedIn<f64>+Probe(8,2) Linear chunk 8, max_rel 1.5; 2 warm-up calls; setter + 1 call; strict probe", "new ratio k/32 (D_grid); ramp bool", tier="thorough")
+_c06("c06_sfo_ramp_then_step", ["C06"], "SincFixedOut<f64>+Probe(2,2) Linear chunk 4: set(0.5, ramp) immediately followed by set(0.5, step) vs a twin that only received the step: input need, counts and outputs identical", "none (concrete)", cap=600)
+_c06("c06_ffo_ramp_then_step", ["C06"], "FastFixedOut<f64> Linear chunk 4: as above", "none (concrete)", cap=600)
 _c06("c06_sfo_after_ramp_grid", ["C06"], "SincFixedOut<f64>+Probe(8,2) Linear chunk 3: 2 warm-up calls, ramped change, the ramp chunk, then the chunk AFTER the ramp: spacing == 1/new from its first frame, windows on supplied data", "new ratio k/32 (D_grid), ramp = true")
 _c06("c07_ffi_slow", ["C07"], "FastFixedIn<f64> Linear chunk 7, constant ratio 0.1 (1/r = 10 > 7), 8 calls from the fresh state: uniform spacing across chunk boundaries, lag bound, at least 4 frames observed", "none (concrete slow ratio; the solver decides the safety checks and the float comparisons)")
 _c06("c08_ffo_cubic_poly", ["C08"], "FastFixedOut<f64> Cubic chunk 3: input is a cubic polynomial of the frame index; 2 calls; every frame inside the stream equals the polynomial at -4+(j+1)/r within 1e-9", "ratio k/32 (D_grid)", tier="thorough")
@@ -310,6 +329,8 @@ for _n, _d, _r in (("c08_ffi_quintic_line", "Quintic", "1.6"), ("c08_ffi_septic_
     _c06(_n, ["C08"], "FastFixedIn<f64> %s chunk 8, constant ratio %s, 3 calls on the index signal: every frame inside the stream sits at -4+(j+1)/ratio (window selection; a line is reproduced exactly by every degree >= 1)" % (_d, _r),
          "none (concrete ratio with non-integer instants; the solver decides the safety checks and the equalities)")
 _c13("c13_shape_fti_zero_output_lite", "FftFixedIn<f64>::new(2,3,1,1,2): chunk smaller than the FFT block, first call advertises zero output frames; symbolic shapes; result classification, writes nothing, getters unchanged", stubs=FFT_STUBS)
+_c13("c13_ffi_failed_call_ramp_pending", "FastFixedIn<f64> Linear chunk 3: ramped change to 1.5 pending, one failed call (input or output one frame short), then a valid call compared bit-exactly with a twin that never saw the failure; getters equal", sym="which malformed call (2 variants)", cap=600)
+_c13("c13_sfo_failed_call_ramp_pending", "SincFixedOut<f64>+Probe(2,2) Linear chunk 3: ramped change to 0.5 pending, one failed call, then a valid call vs twin; getters equal", sym="which malformed call (2 variants)", cap=600)
 _c13("c13_ffo_failed_call_midstream", "FastFixedOut<f64> Linear ratio 0.75 chunk 2: two valid calls on the index signal, one failed call, then a valid call compared bit-exactly with a twin", sym="which malformed call: input one frame short / output one frame short / too many input channels")
 _c05("c05_ftio_vs_fto_small_chunk", "FftFixedInOut(2,3,2) 2 calls vs FftFixedOut(2,3,1,1) 6 calls: FFT block 3 larger than the output chunk 1; outputs bit-identical", "none (concrete)", stubs=FFT_STUBS)
 _c06("c06_ffo_change_big", ["C06"], "FastFixedOut<f64> Linear chunk 20, max_rel 2: 1 warm-up call, setter + 1 call (the input need during a ramp only matters when chunk*|1/old-1/new| exceeds the 8-frame margin)", "new ratio k/32 (D_grid); ramp bool", tier="thorough", cap=3600)
